@@ -54,7 +54,7 @@ func BuildMoqSimos(s *Scratch) (string, string, error) {
 	}
 	bin := filepath.Join(s.Dir, "bin", "moq-simos")
 	os.MkdirAll(filepath.Dir(bin), 0o755)
-	out, err := Run(dst, GoEnv(), "go", "build", "-o", bin, ".")
+	out, err := Run(dst, GoEnv(), "go", "build", "-o", bin, MainPackage(dst))
 	if err != nil {
 		return "", "", Fatal2("building moq with os redirected to simos failed (not a verdict; an os API simos does not model?):\n%s", firstLines(string(out), 30))
 	}
